@@ -42,7 +42,7 @@ Section S.
               o_sqrt O (L O_getAlpha0 * L O_getHarmonicNumber * gen_sinrf_V_RF K O L B / (L C_two_pi * L O_getBeamEnergy)) in
     fs <> 0 -> L O_getStepsPerTsync <> 0 -> L O_getDampingTime <> 0 ->
     gen_e1 K O L B = two / (fs * L O_getDampingTime * L O_getStepsPerTsync).
-  Proof. intros H1 H2 H3 H4 H5 fs. subst fs. intros. open_gen. use_guards. unfold two. field_hyps. Qed.
+  Proof. cbv zeta. intros. open_gen. use_guards. unfold two. field_hyps. Qed.
 
   (** DampingTime = 0 switches the Fokker-Planck term off (main() then builds the Identity map) *)
   Lemma e1_off :
